@@ -343,3 +343,56 @@ func (c *Conn) read() (Value, error) {
 	}
 	return Value{}, fmt.Errorf("bad RESP type byte %q", t)
 }
+
+// StartOutput starts a server with `-o <mode>` (mode "json" or "resp").  Start cannot be used for
+// -o json: its readiness probe expects RESP-mode replies; here a reply of either mode counts.
+func StartOutput(dir, mode string, extra ...string) (*Server, error) {
+	port := FreePort()
+	if err := os.MkdirAll(dir, 0o755); err != nil {
+		return nil, err
+	}
+	extra = append(extra, "-o", mode)
+	s := &Server{Dir: dir, Port: port, Args: extra, done: make(chan struct{})}
+	args := append([]string{"-h", "127.0.0.1", "-p", strconv.Itoa(port), "-d", dir}, extra...)
+	s.Cmd = exec.Command(ServerBin(), args...)
+	s.LogF = filepath.Join(dir, "server.log")
+	lf, err := os.OpenFile(s.LogF, os.O_CREATE|os.O_WRONLY|os.O_APPEND, 0o644)
+	if err != nil {
+		return nil, err
+	}
+	s.Cmd.Stdout = lf
+	s.Cmd.Stderr = lf
+	s.Cmd.SysProcAttr = &syscall.SysProcAttr{Pdeathsig: syscall.SIGKILL}
+	if err := s.Cmd.Start(); err != nil {
+		lf.Close()
+		return nil, err
+	}
+	lf.Close()
+	go func() {
+		s.Exit = s.Cmd.Wait()
+		close(s.done)
+	}()
+	deadline := time.Now().Add(20 * time.Second)
+	for time.Now().Before(deadline) {
+		select {
+		case <-s.done:
+			return s, fmt.Errorf("server exited during start: %v (log %s)", s.Exit, s.LogTail(400))
+		default:
+		}
+		c, err := Dial(port)
+		if err == nil {
+			v, err := c.Do("PING")
+			if err == nil && (v.Str == "PONG" || strings.Contains(v.Str, `"ping":"pong"`)) {
+				w, err := c.Do("TYPE", "__verif_ready__")
+				if err == nil && !strings.Contains(w.Str, "LOADING") {
+					c.Close()
+					return s, nil
+				}
+			}
+			c.Close()
+		}
+		time.Sleep(15 * time.Millisecond)
+	}
+	s.Kill()
+	return s, fmt.Errorf("server did not come up on port %d (log %s)", port, s.LogTail(400))
+}
